@@ -30,7 +30,7 @@ def moverInc (gt : GameTime) : Color → Int
   | .black => gt.binc
 
 theorem calculateTimeSlice_eq (gt : GameTime) (c : Color) :
-    calculateTimeSlice gt c = sliceCore (moverClock gt c) (moverInc gt c) (gt.movestogo.getD Gen.gameLength) := by
+    calculateTimeSlice gt c = sliceCore (moverClock gt c) (moverInc gt c) gt.mtg := by
   cases c <;> rfl
 
 theorem val_safeguard : val (ofInt (Gen.safeguardMs : Nat)) = 100 := by
